@@ -73,9 +73,10 @@ def robust_sample_std(x, axis):
     return winsorize_std(x, axis=-1)
 
 
-def boot_sigma(data, conf, num_iterations=10000, winsorize=False):
+def boot_sigma(data, conf, num_iterations=10000, winsorize=False, rng=None):
     """
     Bootstrap standard deviation.
+    rng: seed or numpy Generator for the resampling (None draws fresh entropy)
     """
     # we use upper bound of confidence interval for more robustness
     if winsorize:
@@ -84,7 +85,12 @@ def boot_sigma(data, conf, num_iterations=10000, winsorize=False):
         std_func = sample_std
 
     return bootstrap(
-        data.reshape(1, -1), std_func, confidence_level=conf, method="basic", n_resamples=num_iterations
+        data.reshape(1, -1),
+        std_func,
+        confidence_level=conf,
+        method="basic",
+        n_resamples=num_iterations,
+        random_state=rng,
     ).confidence_interval.high
 
 
